@@ -9,6 +9,7 @@ import (
 	"bytes"
 	"errors"
 	"fmt"
+	"hash/fnv"
 	"math"
 	"os"
 	"regexp"
@@ -55,6 +56,11 @@ type Params struct {
 	// MeasureGC: classify the effect of every gc step (file removed / live entries moved)
 	// into OpCount["gc-effect:*"].
 	MeasureGC bool
+	// HeldIter adds the read-only operations "iopen" (open a DB iterator and keep it) and
+	// "iread" (walk it, compare with the model, close it), at most one pair per path. While the
+	// iterator is held only maintenance operations are enabled (no client writes, no reopen),
+	// so the model does not change and the iterator must still return exactly the model.
+	HeldIter bool
 }
 
 type ver struct {
@@ -76,6 +82,11 @@ type Inst struct {
 	keys    []string // universe "cf/key"
 	hist    []write  // every successful client write, in order
 	lastOp  string   // class of the last applied operation (RichSig: the step after which a failure shows)
+	held    utils.Iterator
+	nHeld   int
+	heldOps []string        // maintenance classes applied while the iterator was held
+	heldKey uint64          // hash of the state key at the time the iterator was opened
+	merges  map[string]bool // table-merging compaction kinds applied so far (RichSig)
 }
 
 type write struct {
@@ -145,6 +156,10 @@ func New(p *Params) seqmc.Instance {
 }
 
 func (in *Inst) Close() {
+	if in.held != nil {
+		_ = in.held.Close()
+		in.held = nil
+	}
 	if in.H != nil {
 		_ = in.H.Close()
 	}
@@ -160,11 +175,18 @@ func (in *Inst) Enabled() []string {
 		return nil
 	}
 	var ops []string
-	if in.nClient < in.P.MaxClient {
+	if in.nClient < in.P.MaxClient && in.held == nil {
 		ops = append(ops, in.P.ClientOps...)
 	}
+	if in.P.HeldIter {
+		if in.held != nil {
+			ops = append(ops, "iread")
+		} else if in.nHeld == 0 {
+			ops = append(ops, "iopen")
+		}
+	}
 	if in.nMaint < in.P.MaxMaint {
-		menu := in.H.MaintMenu(in.P.WithGC, in.P.WithReopen)
+		menu := in.H.MaintMenu(in.P.WithGC, in.P.WithReopen && in.held == nil)
 		if in.P.Macro {
 			var m2 []string
 			rf := false
@@ -234,6 +256,27 @@ const farFuture = uint64(1) << 40
 
 func (in *Inst) Apply(op string) (bool, error) {
 	in.lastOp = opClass(op)
+	if op == "iopen" {
+		in.nHeld++
+		in.heldOps = nil
+		in.heldKey = 0
+		if in.P.Dedup {
+			h := fnv.New64a()
+			_, _ = h.Write([]byte(in.Key()))
+			in.heldKey = h.Sum64()
+		}
+		in.held = in.H.DB.NewIterator(&utils.Options{IsAsc: true})
+		OpCount["iopen"]++
+		return true, nil
+	}
+	if op == "iread" {
+		in.readHeld()
+		OpCount["iread"]++
+		return true, nil
+	}
+	if in.held != nil {
+		in.heldOps = append(in.heldOps, opClass(op))
+	}
 	if !isClient(op) {
 		in.nMaint++
 		var gcBefore string
@@ -265,6 +308,12 @@ func (in *Inst) Apply(op string) (bool, error) {
 			in.nMaint--
 		} else {
 			OpCount[opClass(op)]++
+			if c := opClass(op); c == "l0-l0" || c == "ingest-keep" || c == "ingest-drain" {
+				if in.merges == nil {
+					in.merges = map[string]bool{}
+				}
+				in.merges[c] = true
+			}
 		}
 		return changed, nil
 	}
@@ -497,6 +546,60 @@ func (in *Inst) checkIter(asc bool) (string, string) {
 	return "", ""
 }
 
+// readHeld walks the held iterator and judges it like checkIter; a failure becomes the
+// pending violation of this state with the maintenance classes applied while it was open.
+func (in *Inst) readHeld() {
+	it := in.held
+	in.held = nil
+	seen := map[string][][]byte{}
+	for it.Rewind(); it.Valid(); it.Next() {
+		item := it.Item()
+		if item == nil || item.Entry() == nil {
+			continue
+		}
+		e := item.Entry()
+		if e.Version != math.MaxUint64 || e.Meta&kv.BitDelete != 0 {
+			continue
+		}
+		mk := cfName(e.CF) + "/" + string(e.Key)
+		seen[mk] = append(seen[mk], append([]byte(nil), e.Value...))
+	}
+	_ = it.Close()
+	set := map[string]bool{}
+	for _, o := range in.heldOps {
+		set[o] = true
+	}
+	var cls []string
+	for o := range set {
+		cls = append(cls, o)
+	}
+	sort.Strings(cls)
+	during := "while-open=" + strings.Join(cls, ",")
+	for _, mk := range in.keys {
+		want, ok := in.model[mk][math.MaxUint64]
+		live := ok && want.val != nil && want.expires != 1
+		got := seen[mk]
+		switch {
+		case !live && len(got) > 0:
+			in.pending = fmt.Sprintf("iter-held-resurrected key=%s %s %s", mk, during, in.where(mk, math.MaxUint64, false))
+			in.pendDsc = fmt.Sprintf("iterator opened before %v yields %s = %q, model: not found", in.heldOps, mk, got[0])
+		case live && len(got) == 0:
+			in.pending = fmt.Sprintf("iter-held-lost key=%s %s %s", mk, during, in.where(mk, math.MaxUint64, false))
+			in.pendDsc = fmt.Sprintf("iterator opened before %v does not yield %s, model: %q (write #%d)", in.heldOps, mk, want.val, want.seq)
+		case live:
+			for _, g := range got {
+				if !bytes.Equal(g, want.val) {
+					in.pending = fmt.Sprintf("iter-held-stale key=%s %s %s", mk, during, in.where(mk, math.MaxUint64, false))
+					in.pendDsc = fmt.Sprintf("iterator opened before %v yields %s = %q%s, model: %q (write #%d)", in.heldOps, mk, g, in.whoWrote(mk, g), want.val, want.seq)
+				}
+			}
+		}
+		if in.pending != "" {
+			return
+		}
+	}
+}
+
 func cfName(cf kv.ColumnFamily) string {
 	switch cf {
 	case kv.CFDefault:
@@ -608,7 +711,9 @@ type container struct {
 // Units (separated by "|") are what a point lookup consults one after the other, stopping
 // at the first unit with a hit: the active memtable, each immutable memtable newest first,
 // L0 as a whole (newest table first), then each level as a whole (ingest tables, then main
-// tables). step = class of the operation after which the failure showed.
+// tables). step = class of the operation after which the failure showed; merges = the
+// table-merging compaction kinds (l0-l0, ingest-keep, ingest-drain) applied earlier on the path
+// (their outputs get fresh, higher file ids than younger flushed tables).
 // mech=first-hit-unit-lacks-newest-version: the first unit holding any version <= pv does not
 // hold the model's answer (a newer container holds only older versions: out-of-order version
 // writes); mech=tie:<classes>: several containers of that unit hold the wanted version and the
@@ -778,7 +883,16 @@ func (in *Inst) layoutSig(mk string, pv uint64, lookup bool) string {
 	case mech == "":
 		mech = "missing-everywhere"
 	}
-	return fmt.Sprintf("step=%s probe=%s want=%s mech=%s layout=%s", in.lastOp, verName(pv), want, mech, strings.Join(us, "|"))
+	merges := "-"
+	if len(in.merges) > 0 {
+		var ms []string
+		for m := range in.merges {
+			ms = append(ms, m)
+		}
+		sort.Strings(ms)
+		merges = strings.Join(ms, ",")
+	}
+	return fmt.Sprintf("step=%s merges=%s probe=%s want=%s mech=%s layout=%s", in.lastOp, merges, verName(pv), want, mech, strings.Join(us, "|"))
 }
 
 func (in *Inst) Key() string {
@@ -787,6 +901,14 @@ func (in *Inst) Key() string {
 	}
 	var sb strings.Builder
 	fmt.Fprintf(&sb, "c%d m%d\n", in.nClient, in.nMaint)
+	if in.P.HeldIter {
+		if in.held != nil {
+			// the held iterator pins the containers that existed when it was opened
+			fmt.Fprintf(&sb, "held since=%x during=%v\n", in.heldKey, in.heldOps)
+		} else {
+			fmt.Fprintf(&sb, "held n=%d\n", in.nHeld)
+		}
+	}
 	for _, mk := range in.keys {
 		vs := in.model[mk]
 		var vers []uint64
